@@ -490,11 +490,12 @@ def run(run_, ctx):
     run_.floor("F", 6)
     run_.floor("P", 2)
     run_.explanation = (
-        "Both hashers' four recursive functions (found by their signatures) are explored on all paths (0,1,2 loop iterations) with their private helpers "
-        "analysed in place. Per match arm the ordered stream of Tag(byte) / Name(field) / Rec(role, field[i]) events, with the running state threaded through, "
-        "is extracted and compared between the compile-time and the run-time copy keyed by variant name (33 arms). The const copy's tags are compared with the "
-        "published 33-byte table and its ordering discipline (tag first; variant name-tag-payload; map key-then-value; field name-then-type; struct/enum type "
-        "names unused). FNV-1a constants, update order, path hashing and Key constructors are compared with hand-written specifications.")
+        "The node hasher of the compile-time and of the run-time copy (found by signature) is explored on all paths (0,1,2 loop iterations) with "
+        "every other function of the hash module analysed in place. Per match arm and per shape of a nested struct/variant body the stream fed to the "
+        "hash is decoded from the value of the returned state (FNV-1a rounds on constant bytes, calls of the byte/str folds, recursion) and must be equal "
+        "in both copies on every path (25 node kinds); on the const copy it must be the published tag followed by the children in the documented order "
+        "(33 tags; variant = name, tag, payload; map = key then value; field = name then type; struct/enum type names unused). The FNV-1a fold, offset basis, "
+        "path hashing and Key constructors are compared with hand-written specifications.")
     run_.trusted += ["u64::wrapping_mul / str::as_bytes", "C15.F: the owned schema is a faithful conversion of the static one"]
 
 
